@@ -19,9 +19,12 @@ Record cfg := mkCfg {
   fix_del  : bool;   (* index entries are removed by identity (9d9c5ec); off = by id *)
   fix_cas  : bool;   (* readDisconnected moves to passive-closing by CAS (f0d1757); off = plain store *)
   fix_abort : bool;  (* read loop completes a bound call on its early exits (6d5c154) *)
-  fix_dup  : bool    (* bindReply ignores an already completed call (1db827c) *)
+  fix_dup  : bool;   (* bindReply ignores an already completed call (1db827c) *)
+  fix_acc  : bool    (* accept stores status ok before the index insert (ServeConn, Dial) or by a
+                        compare-and-swap after it (serveListener, 6514bc6); off = index insert first,
+                        then a plain store when the accepting goroutine carries on *)
 }.
-Definition fixed : cfg := mkCfg true true true true.
+Definition fixed : cfg := mkCfg true true true true true.
 
 (* session.go: statusPreparing .. statusRedialFailed *)
 Inductive status :=
